@@ -245,3 +245,47 @@ func zzH_C06_maporder_update() {
 	}
 	zzverif.Reach("end")
 }
+
+// ---- builder and importing node act on the confirmed evidences in the same order ----
+
+func zzC06Confirm(s *Staking, config *params.YouParams, currentDB *state.StateDB, header *types.Header, parentHeight uint64, evidence Evidence, receipt *types.Receipt, result *processedEvidencesResult, seen map[common.Address]struct{}) {
+	// every evidence is confirmed and leaves a log naming it (the penalty itself is C05's subject)
+	result.confirmedEvidences = append(result.confirmedEvidences, evidence)
+	receipt.Logs = append(receipt.Logs, &types.Log{Address: params.StakingModuleAddress, Data: append([]byte(nil), evidence.Data...)})
+}
+
+// zzH_C06_slashing_order: with several evidences confirmed in one block, the importing node
+// replaying header.SlashData emits the builder's logs in the builder's order (the receipt, and
+// so the header's receipt root, agree), whatever order the evidences arrived in.
+//
+//verif:replace (*$M/staking.Staking).processDoubleSignV5 zzC06Confirm
+func zzH_C06_slashing_order() {
+	zzC06Parent = &types.Header{Number: big.NewInt(7)}
+	header := &types.Header{Number: big.NewInt(8)}
+	zzC06Written = nil
+	cfg := &params.YouParams{}
+	cfg.Version = params.YouV5
+	n := 2 + zzverif.Choose("evidences", 2)
+	st := &Staking{blsMgr: zzC05Mgr{}}
+	for i := 0; i < n; i++ {
+		b := zzverif.U8("evidence.encoding")
+		st.evidences = append(st.evidences, Evidence{Type: EvidenceTypeDoubleSignV5, Data: []byte{b, byte(i)}})
+	}
+	s := zzNewState()
+	s.Finalise(false)
+	bctx := &context{config: cfg, db: s, header: header, receipt: &types.Receipt{}, recorder: local.FakeRecorder(), chain: zzC06Chain{}}
+	st.slashing(bctx)
+	ih := *header
+	ictx := &context{config: cfg, db: s.Copy(), header: &ih, receipt: &types.Receipt{}, recorder: local.FakeRecorder(), chain: zzC06Chain{}}
+	st2 := &Staking{blsMgr: zzC05Mgr{}}
+	st2.replaySlashing(ictx)
+	zzverif.Reach("both-ran")
+	lb, li := bctx.receipt.Logs, ictx.receipt.Logs
+	zzverif.Assert(len(lb) == n && len(li) == n, "builder and importing node act on every confirmed evidence")
+	if len(lb) == len(li) {
+		for i := range lb {
+			zzverif.Assert(string(lb[i].Data) == string(li[i].Data), "the importing node emits the builder's logs in the builder's order")
+		}
+	}
+	zzverif.Reach("end")
+}
